@@ -544,3 +544,35 @@ def classify(e: BaseException) -> int:
     if isinstance(e, RuntimeError):
         return 8
     return 99
+
+
+def _has_set_of_nonscalar(gen: Gen, T: Any, seen: set[int] | None = None) -> bool:
+    seen = set() if seen is None else seen
+    k = T[0]
+    if k == "fs":
+        return unopt(T[1])[0] in ("c", "fs", "d", "l") or _has_set_of_nonscalar(gen, T[1], seen)
+    if k in ("o", "l"):
+        return _has_set_of_nonscalar(gen, T[1], seen)
+    if k == "d":
+        return _has_set_of_nonscalar(gen, T[1], seen) or _has_set_of_nonscalar(gen, T[2], seen)
+    if k == "c" and T[1] not in seen:
+        seen.add(T[1])
+        return any(_has_set_of_nonscalar(gen, f.T, seen) for f in gen.classes[T[1]].fields if f.kind != "transient")
+    return False
+
+
+def finding_key(gen: Gen, cd: ClassDesc, x: Any, y: Any = None, exc: BaseException | None = None) -> str:
+    """Name the class of failure specifically: which construct did not come back."""
+    if exc is not None:
+        if "Dictionary indices invalid" in str(exc):
+            return "none-nested-dataclass-with-enum-field-fails-full-ipc-validation"
+        if isinstance(exc, TypeError) and "unhashable" in str(exc) and _has_set_of_nonscalar(gen, ("c", cd.cid)):
+            return "frozenset-elements-not-converted-back"
+        return "roundtrip-raises-" + type(exc).__name__
+    path = first_diff(x, y, ("c", cd.cid), gen) or ()
+    for i in range(len(path) - 1, -1, -1):
+        if path[i] == "fs" and i < len(path) - 1:
+            return "frozenset-elements-not-converted-back"
+        if path[i] == "d" and i < len(path) - 2:
+            return "dict-keys-or-values-not-converted-back"
+    return "roundtrip-differs:" + "/".join(path)
